@@ -83,36 +83,16 @@ Definition slice_want (a b : option Z) (x : item) : bool := lo_ok a x && hi_ok b
 Lemma rewrap_filter p t : chron t -> rewrap (filter p t) = filter p t.
 Proof. intros H. apply rewrap_id. apply sorted_filter. exact H. Qed.
 
-Lemma slice_spec t a b : chron t -> t <> [] ->
+Lemma slice_spec t a b : chron t ->
   slice t a b = Ok (filter (slice_want a b) t).
 Proof.
-  intros C N. destruct t as [|x l]; [congruence|]. clear N.
-  unfold slice.
-  assert (Hlo : exists lo, slice_lo (x :: l) a = Ok lo /\
-                 forall y, In y (x :: l) -> (lo <=? st y) = lo_ok a y).
-  { destruct a as [a'|].
-    - exists a'. split; [reflexivity|]. intros y Hy. reflexivity.
-    - exists (st x). split; [reflexivity|]. intros y Hy. cbn.
-      pose proof (chron_first_min x l C y Hy). lia. }
-  assert (Hhi : exists hi, slice_hi (x :: l) b = Ok hi /\
-                 forall y, In y (x :: l) -> (en y <? hi) = hi_ok b y).
-  { destruct b as [b'|].
-    - exists b'. split; [reflexivity|]. intros y Hy. reflexivity.
-    - exists (max_end x l + 1000000). split; [reflexivity|]. intros y Hy. cbn [hi_ok].
-      pose proof (max_end_ge x l y Hy). lia. }
-  destruct Hlo as (lo & -> & Hlo). destruct Hhi as (hi & -> & Hhi).
-  f_equal. rewrite rewrap_filter by exact C.
-  apply filter_ext_in. intros y Hy. unfold slice_pred, slice_want.
-  rewrite (Hlo y Hy), (Hhi y Hy). reflexivity.
+  intros C. destruct t as [|x l]; [reflexivity|].
+  unfold slice. f_equal. rewrite rewrap_filter by exact C.
+  apply filter_ext_in. intros y Hy. unfold slice_pred, slice_want, lo_ok, hi_ok.
+  f_equal.
+  - destruct a as [a'|]; [reflexivity|]. pose proof (chron_first_min x l C y Hy). lia.
+  - destruct b as [b'|]; [reflexivity|]. pose proof (max_end_ge x l y Hy). lia.
 Qed.
-
-Lemma slice_empty a b :
-  slice [] a b = match a, b with
-                 | None, _ => Err IndexError
-                 | Some _, None => Err ValueError
-                 | Some _, Some _ => Ok []
-                 end.
-Proof. destruct a, b; reflexivity. Qed.
 
 (* membership form: exactly the shapes that start at or after a and end before b *)
 Lemma slice_exact t a b out : chron t -> slice t a b = Ok out ->
@@ -121,15 +101,16 @@ Lemma slice_exact t a b out : chron t -> slice t a b = Ok out ->
             /\ match b with Some b' => en x < b' | None => True end)
   /\ sublist out t /\ chron out.
 Proof.
-  intros C H. destruct t as [|x0 l].
-  - rewrite slice_empty in H. destruct a, b; try discriminate. injection H as <-.
-    split; [|split; [constructor|constructor]]. intros x. cbn. tauto.
-  - rewrite slice_spec in H by (auto; discriminate).
-    assert (E : out = filter (slice_want a b) (x0 :: l)) by congruence. clear H. subst out.
-    split; [|split; [apply filter_sublist|apply sorted_filter; exact C]].
-    intros x. rewrite filter_In. unfold slice_want, lo_ok, hi_ok.
-    destruct a, b; split; intros [H1 H2]; (split; [exact H1|]); lia.
+  intros C H. rewrite slice_spec in H by exact C.
+  assert (E : out = filter (slice_want a b) t) by congruence. clear H. subst out.
+  split; [|split; [apply filter_sublist|apply sorted_filter; exact C]].
+  intros x. rewrite filter_In. unfold slice_want, lo_ok, hi_ok.
+  destruct a, b; split; intros [H1 H2]; (split; [exact H1|]); lia.
 Qed.
+
+(* slicing never raises, whatever the track (D30 repaired the empty track) *)
+Lemma slice_total t a b : exists out, slice t a b = Ok out.
+Proof. destruct t; eexists; reflexivity. Qed.
 
 (* the pre-repair rule (stop = end of the LAST-STARTING shape + 1 s) is not exact: D18 *)
 Definition slice_hi_old (t : track) (b : option Z) : res Z :=
@@ -300,8 +281,7 @@ Section Fij.
     destruct o; cbn [apply_op]; intros H; try discriminate;
       try (apply ok_inj in H; subst t';
            unfold add, filter_by_dt, filter_by_iv, filter_by_time; apply rewrap_chron).
-    - unfold slice in H. destruct (slice_lo t a); [|discriminate].
-      destruct (slice_hi t b); [|discriminate]. apply ok_inj in H. subst t'. apply rewrap_chron.
+    - unfold slice in H. destruct t; apply ok_inj in H; subst t'; apply rewrap_chron.
     - apply ok_inj in H. subst t'. unfold convolve. destruct (has_dup t); apply rewrap_chron.
     - unfold fij in H. destruct t; [discriminate|]. apply ok_inj in H. subst t'. apply rewrap_chron.
   Qed.
@@ -317,15 +297,6 @@ Section Fij.
   Lemma ops_sorted raws ops t0 t :
     mk_track raws = Ok t0 -> run dist merge t0 ops = Ok t -> chron t.
   Proof. intros H1 H2. eapply run_chron; [|exact H2]. eapply mk_sorted; eauto. Qed.
-
-  Lemma slice_open_empty_refuted : exists dist merge raws ops t0 t,
-    mk_track raws = Ok t0 /\ raws <> [] /\ run dist merge t0 ops = Ok t /\
-    slice t None None <> Ok (filter (fun _ => true) t).
-  Proof.
-    exists (fun _ _ => 0%Q), (fun _ => 0), [Timed (mkitem 0 5 5 0 0 0)], [OSlice (Some 10) (Some 20)],
-           [mkitem 0 5 5 0 0 0], [].
-    split; [reflexivity|]. split; [discriminate|]. split; [reflexivity|]. discriminate.
-  Qed.
 
   (* slices, filters and the speed filter never reorder: the result is a sublist of the source *)
   Definition selecting (o : op) : bool :=
